@@ -12,8 +12,11 @@ env = dict(os.environ)
 env['PATH'] = '/opt/veriftools/go1.26.8/bin:' + env['PATH']
 env.update(GOTOOLCHAIN='local', GOFLAGS='-mod=mod', GOPROXY='off', GOSUMDB='off')
 
-def run_one(prop, path):
-    name = os.path.basename(path)[:-5]
+def claimed():
+    return set(c['property_id'] for c in json.load(open(os.path.join(root, 'MANIFEST.json')))['checks'])
+
+def run_one(prop, path, name=None):
+    name = name or os.path.basename(path)[:-5]
     text = open(path).read()
     expect = 'violation'
     m = re.search(r'^# expect: (\w+)', text, re.M)
@@ -61,6 +64,22 @@ def main():
             res.append(r)
             print('%-4s %-44s expect=%-9s got=%-10s %s %s' % (r['prop'], r['name'], r['expect'], r['got'], 'OK ' if r['ok'] else 'MISMATCH', ','.join(r.get('obligations', []))[:150]), flush=True)
             if not r['ok']: print(r['detail'])
+    res_seeded = []
+    sd = os.path.join(root, 'seeded')
+    sjobs = []
+    if os.path.isdir(sd):
+        for d in sorted(os.listdir(sd)):
+            mp = os.path.join(sd, d, 'meta.json')
+            if not os.path.exists(mp): continue
+            meta = json.load(open(mp))
+            if args and meta['property'] not in args: continue
+            if meta['property'] not in claimed(): 
+                print('%-4s %-44s property not claimed: skipped' % (meta['property'], 'seeded/' + d)); continue
+            sjobs.append((meta['property'], os.path.join(sd, d, 'patch.diff'), 'seeded/' + d))
+    with concurrent.futures.ThreadPoolExecutor(j) as ex:
+        for r in ex.map(lambda a: run_one(a[0], a[1], a[2]), sjobs):
+            res.append(r)
+            print('%-4s %-44s expect=%-9s got=%-10s %s %s' % (r['prop'], r['name'], r['expect'], r['got'], 'OK ' if r['ok'] else 'MISSED', ','.join(r.get('obligations', []))[:150]), flush=True)
     bad = [r for r in res if not r['ok']]
     print('%d mutants, %d as expected, %d mismatches' % (len(res), len(res) - len(bad), len(bad)))
     for r in res: r.pop('detail', None)
